@@ -808,6 +808,29 @@ def _f104(vio):
     return any(model.param(n, "__array__") == "categorical" for _p, n in model.walk(case["layout"]))
 
 
+def _c20(vio):
+    return "prog" in (vio.get("case") or {})
+
+
+@mechanism("F108-numba-return-masked-slice")
+def _f108(vio):
+    """returning (boxing) a range slice of an array with ByteMaskedArray/BitMaskedArray nodes from compiled code:
+    'ByteMaskedArray content must not be shorter than its mask'"""
+    det = vio.get("detail") or {}
+    comp = det.get("compiled") or {}
+    e = str(comp.get("error") if isinstance(comp, dict) else comp)
+    return _c20(vio) and vio.get("kind") == "outcome-differs" and \
+        ("content must not be shorter than its mask" in e or "mask must not be shorter than its ceil(length" in e)
+
+
+@mechanism("F109-numba-size0-regular")
+def _f109(vio):
+    """arrays with a regular dimension of size 0 coming back from compiled code lose the number of lists"""
+    import re
+    det = vio.get("detail") or {}
+    return _c20(vio) and vio.get("kind") == "value-differs" and bool(re.search(r"(?<![0-9])0\*", det.get("type") or ""))
+
+
 @mechanism("F10-reduce-nonlocal")
 def _f10(vio):
     rep = _report(vio)
